@@ -30,18 +30,29 @@ MARKERS = {"CLIENT_INITIALIZATION": "# Create a client", "REQUEST_INITIALIZATION
 def floors(tier):
     k = 1 if tier == "quick" else 8
     return {"samples_executed": 250 * k, "requests_judged": 200 * k, "metadata_entries_checked": 250 * k, "docstring_snippets_compared": 100 * k,
-            "form:paged": 10 * k, "form:lro": 8 * k, "form:server": 8 * k, "form:bidi": 4 * k, "async_samples": 80 * k}
+            "form:paged": 10 * k, "form:lro": 8 * k, "form:server": 8 * k, "form:bidi": 4 * k, "async_samples": 80 * k,
+            "listed_methods_of_partly_internal_api": 15 * k}
 
 
 def plan(seed, tier):
     n = 10 if tier == "quick" else 80
     trs = ["grpc", "grpc+rest", "grpc", "rest", "grpc"]
-    return [{"id": f"smp-{seed}-{i}", "seed": seed * 100003 + i, "transport": trs[i % len(trs)]} for i in range(n)]
+    cases = [{"id": f"smp-{seed}-{i}", "seed": seed * 100003 + i, "transport": trs[i % len(trs)]} for i in range(n)]
+    # selective generation that keeps unlisted methods as internal: the samples of the LISTED methods of a partly internal service
+    cases += [{"id": f"smp-int-{seed}-{i}", "seed": seed * 100003 + 6000 + i, "transport": "grpc", "internal": True} for i in range(max(3, n // 5))]
+    return cases
 
 
 def build_api(case):
     rng = random.Random(case["seed"])
-    return apigen.sample_api(rng, "e%d" % (case["seed"] % 100000), transport=case["transport"])
+    api = apigen.sample_api(rng, "e%d" % (case["seed"] % 100000), transport=case["transport"])
+    if case.get("internal"):
+        names = sorted(f"{fb.pb.package}.{s_.name}.{m_.name}" for fb in api.files if fb.pb.name in api.targets for s_ in fb.pb.service for m_ in s_.method)
+        rng.shuffle(names)
+        kept = sorted(names[: max(2, (2 * len(names)) // 3)])
+        api.info["kept_rpcs"] = kept
+        api.aux["service-yaml"] = ("svc.yaml", apigen.service_yaml(api, publishing=apigen.selective_publishing(api.info["pkg"], kept, internal=True)))
+    return api
 
 
 def calling_form(model, m):
@@ -101,7 +112,13 @@ def run_case(case):
     kinds = ["sync"] + (["async"] if "grpc" in tr else [])
     samples = []
     expected_tags = set()
+    kept_rpcs = api.info.get("kept_rpcs")
     for p, s, m in refs.target_methods(req):
+        if kept_rpcs is not None and f"{p.package}.{s.name}.{m.name}" not in kept_rpcs:
+            bump("internal_methods_not_judged")
+            continue                    # samples of internal methods (tags ending in _internal) are outside C14's statement
+        if kept_rpcs is not None:
+            bump("listed_methods_of_partly_internal_api")
         form = calling_form(model, m)
         host_short = s.options.Extensions[client_pb2.default_host].split(".")[0]
         if host_short != api.info["host"].split(".")[0]:
@@ -120,7 +137,7 @@ def run_case(case):
             samples.append({"tag": tag, "file": fname, "rpc": m.name, "service": s.name, "full_service": f"{p.package}.{s.name}", "kind": kind,
                             "form": form, "req_type": m.input_type.lstrip("."), "resp_type": m.output_type.lstrip("."), "meta": e,
                             "lro": refs.lro_info(m), "pkg": p.package})
-    extra = set(by_tag) - expected_tags
+    extra = {t for t in set(by_tag) - expected_tags if not (kept_rpcs is not None and t.endswith("_internal"))}
     if extra:
         bad("unexpected-samples", sorted(extra)[:6])
     # static checks + script
@@ -192,6 +209,7 @@ def run_case(case):
         return pipeline.runner_failed_result(ev, rc, err, api)
     bytag = {s["tag"]: s for s in samples}
     sample_out = None
+    late_paths = set()
     for ss, r in zip(script_samples, ev["samples"]):
         sm = bytag[ss["tag"]]
         form, kind = sm["form"], sm["kind"]
@@ -236,12 +254,13 @@ def run_case(case):
                     a, b = norm(body), norm(want)
                     i = next((k for k, (x, y) in enumerate(zip(a, b)) if x != y), min(len(a), len(b)))
                     bad("docstring-snippet-differs", {"tag": ss["tag"], "docstring_line": a[i:i + 1], "file_line": b[i:i + 1]}, **mech)
-        # request seen by the server
-        evs = r.get("events") or []
+        # request seen by the server (a call of an earlier asyncio request-streaming sample may be recorded late: not this sample's)
+        evs = [e for e in (r.get("events") or []) if e["method"] == ss["path"] or e["method"] not in late_paths]
         if not evs:
             if r.get("not_executed"):
                 pass
-            elif form == "client" and kind == "async":
+            elif form in ("client", "bidi") and kind == "async":
+                late_paths.add(ss["path"])
                 bump("request_not_observed_async_client_streaming")
             elif not r.get("error"):
                 bad("sample-sent-nothing", {"file": sm["file"]}, **mech)
@@ -373,6 +392,13 @@ def in_runner(script):
                 devnull.close()
         except BaseException as e:  # noqa
             r["error"] = rt.exc_info(e)
+        # the server records a call when its handler has read the whole request stream, which for an asyncio client-streaming
+        # sample can be after the sample returned: wait briefly for it, so that it is not attributed to the next sample
+        import time as _t
+        for _ in range(40):
+            if srv.since(mark) or "error" in r:
+                break
+            _t.sleep(0.025)
         r["events"] = srv.since(mark)
         if script["transport"] == "rest":
             r["http_events"] = len(http.since(hmark))
